@@ -11,8 +11,15 @@ Tree-based exact variants (Properties_C03_trees.v, ParTreesModel.v): EXACT tie o
 ShortestOddCycleLookup<...,true> (kind L), CandidateCycleBuilder with weight limits (kind B) and the entry points
 mcb_sva_fvs_trees_tbb / mcb_sva_iso_trees_tbb (kind W) of the unchanged headers under the shim; the extracted model gets the graph, the
 recovered arrangement std::sort left, the feedback vertex set, the BFS roots and the same bit stream and must agree exactly (candidate
-order, every answer, cycles, returned value, bits consumed); every answer is also judged independently."""
-import json, os, re, subprocess, threading
+order, every answer, cycles, returned value, bits consumed); every answer is also judged independently.
+Boundary configurations: every experiment is repeated with the `long long` instantiation (kind token L) on 64-bit integer weights ABOVE 2^53 (props/c12.py
+weigh64: sums that are not doubles, distinct weights that collide as doubles, (m+4)*sum(w) < 2^63) — the models compute over Z and never see the weight type; the
+Python side computes with Python integers only (no float on the way).  Sizes beyond narrow index types: graphs with 257..400 vertices through the exact model
+comparison (signed_tbb) and the tree lookup; cliques with pendant vertices on 310..330 vertices whose witnesses grow beyond n signed edges (the all-vertices
+reduction over more than 255 vertices), and graphs with 66009 vertices (a star whose hub and cycle-carrying leaves have indices >= 65536 and < 256, plus a
+4-cycle, a K2 and isolated vertices; harness kind G = no oracles) are judged against the property text only, through the 2-core of the graph (the
+cycle space of a graph is that of its 2-core; the independent oracle then runs on a handful of vertices)."""
+import json, os, re, subprocess, threading, random
 import lib, gen, mcb_oracle as O, exact_common as X
 
 PID = "C03"
@@ -22,6 +29,9 @@ REAL_LIBS = ["-ltbb", "-lboost_timer"]
 KEYS = ["ROOTS", "EORD", "RET", "N", "CYC", "SCHED", "SEQRET", "SEQN", "SEQW", "TRACE"]
 EXACT = ["signed_tbb", "fvs_tbb", "iso_tbb"]
 APPROX = ["approx_signed_tbb", "approx_fvs_tbb", "approx_iso_tbb"]
+CORE_N = 100                 # graphs with more vertices are judged through their 2-core (same cycle space; the oracle builds a tree per vertex)
+BIG_N = 2000                 # graphs with more vertices are judged only (no model run, harness kind G: no ROOTS / EORD oracles)
+LLONG_MAX = 2 ** 63 - 1
 CORR = "correspondence c03/signedtbb: ParSignedModel.mcb_sva_signed_tbb_Z vs harness/c03.cpp (parmcb_sva_signed_tbb.hpp on the controllable TBB shim)"
 
 
@@ -36,7 +46,7 @@ def tcase(alg, k, ty, scale, bits, g, perm=None, trace=False):
     a = alg if k is None else "%s %d" % (alg, k)
     head = "%s %s %d %d %s" % (a, ty, scale, len(bits), bits or "-")
     if perm is None and not trace:
-        return "T %s %s" % (head, gen.graph_tokens(g))
+        return "%s %s %s" % ("G" if g[0] > BIG_N else "T", head, gen.graph_tokens(g))
     perm = perm or []
     return "X %s %d%s %d %s" % (head, len(perm), "".join(" %d" % p for p in perm), 1 if trace else 0, gen.graph_tokens(g))
 
@@ -49,6 +59,7 @@ def parse_case(line):
     if alg.startswith("approx_") or (t[0] == "R" and alg.startswith("approx_")):
         k = int(t[p]); p += 1
     ty = t[p]; scale = int(t[p + 1]); p += 2
+    if ty != "D": scale = 0                              # scale applies to double weights only
     d = {"kind": t[0], "alg": alg, "k": k, "ty": ty, "scale": scale, "bits": "", "perm": [], "trace": False, "workers": None}
     if t[0] == "R":
         d["workers"] = int(t[p]); p += 1
@@ -177,9 +188,197 @@ def small_graphs(rng, count):
     return out
 
 
+
+# ------------------------------------------------------------------------------------------------------------------
+# boundary configurations: 64-bit integer weights above 2^53 (kind token L) and sizes beyond narrow index types
+# ------------------------------------------------------------------------------------------------------------------
+def weigh64(rng, g, style=None):
+    from props import c12
+    return c12.weigh64(rng, g, style)
+
+
+def big_star(rng, variant):
+    """a graph with 66009 vertices whose minimum cycle bases are known by construction: a star with hub h >= 65600 and 65999 leaves, a few leaf-leaf edges
+    between leaves with indices < 256 and >= 65536 (inserted at random positions of the edge list), plus a 4-cycle (weights 2,3,4,5), a K2 and three isolated
+    vertices behind the star.  Variants:
+      tri    star edges 1; three disjoint leaf-leaf edges 5, 7, 9: their triangles through the hub are THE minimum cycle basis (3*2 + 5+7+9 = 27, + 14 = 41)
+      rim    star edges 10; a 4-cycle a-b-c-d of weight-1 edges among the leaves and one more leaf-leaf edge 5: the light rim cycle contains four non-tree
+             edges, so the later witnesses have several signed edges (hidden-edge reduction / its MPI slices): 4 + 3*21 + 25 + 14 = 106
+      dense  star edges 10; K6 on six leaves with weights 1..3: ten light triangles inside the K6 and five cycles through the hub
+    -> (graph, expected optimum or None)"""
+    n_star = 66000
+    n = n_star + 9
+    hub = rng.randint(65600, n_star - 1)
+    low = rng.sample(range(0, 256), 3)
+    high = rng.sample([v for v in range(65536, n_star) if v != hub], 3)
+    mid = rng.sample(range(300, 60000), 2)
+    expect = None
+    if variant == "tri":
+        ws = 1; extra = [(low[0], high[0], 5), (high[1], low[1], 7), (high[2], mid[0], 9)]; expect = 27 + 14
+    elif variant == "rim":
+        ws = 10; a, b, c, d = low[0], high[0], low[1], high[1]
+        extra = [(a, b, 1), (c, b, 1), (c, d, 1), (a, d, 1), (high[2], low[2], 5)]; expect = 4 + 3 * 21 + 25 + 14
+    else:
+        ws = 10; sp = low + high; rng.shuffle(sp)
+        extra = [((sp[i], sp[j]) if rng.random() < 0.5 else (sp[j], sp[i])) + (rng.randint(1, 3),) for i in range(6) for j in range(i + 1, 6)]
+    es = [((hub, v, ws) if v % 2 else (v, hub, ws)) for v in range(n_star) if v != hub]
+    W = n_star
+    for e in extra + [(W, W + 1, 2), (W + 2, W + 1, 3), (W + 2, W + 3, 4), (W + 3, W, 5), (W + 4, W + 5, 6)]:
+        es.insert(rng.randrange(len(es) + 1), e)
+    if expect is not None:       # self-test of the judge's route (2-core + independent oracle) against the value known by construction
+        cn, ces, _ = two_core(n, es)
+        assert O.mcb(cn, ces)[0] == expect, "big_star(%s): oracle on the 2-core says %s, by construction %s" % (variant, O.mcb(cn, ces)[0], expect)
+    return (n, es), expect
+
+
+def clique_pendants(rng, k=45, n=320, style="ties", w64=False, place="high"):
+    """K_k plus n - k pendant vertices: cycle space dimension k(k-1)/2 - k + 1 >> n, so that witnesses grow to >= n signed edges and the all-vertices
+    reduction (parallel_reduce over all n > 255 vertices; its MPI vertex slices) is reached; judged through the 2-core (the clique).  place = high: the clique
+    occupies the LAST k vertex indices (all above 255: every cycle lives beyond the range of an 8-bit index), low: the first k, random: anywhere; the edge list is
+    shuffled in every case"""
+    _, es = gen.complete(k)
+    es = list(es) + [(rng.randrange(k), v, 1) for v in range(k, n)]
+    if place == "high": es = [(n - 1 - u, n - 1 - v, w) for (u, v, w) in es]
+    if w64:      # few distinct heavy values: many ties, as with style `ties`
+        m = len(es); b = 60
+        while (m + 4) * m * ((1 << b) + 4) >= LLONG_MAX: b -= 1
+        g = (n, [(u, v, (1 << b) + rng.randint(0, 3)) for (u, v, _) in es])
+    else:
+        g = gen.weigh(rng, (n, es), style)[0]
+    if place == "random": return gen.relabel(rng, g[0], g[1])
+    es = [(v, u, w) if rng.random() < 0.5 else (u, v, w) for (u, v, w) in g[1]]; rng.shuffle(es)
+    return (n, es)
+
+
+def mid_sparse(rng, w64=False):
+    """257..400 vertices (beyond uint8 indices), cycle space dimension <= 12, sometimes with a second component and isolated vertices: small enough for the
+    exact model comparison"""
+    n = rng.randint(257, 400)
+    g = gen.random_connected_sparse(rng, n, rng.randint(3, 12))
+    r = rng.random()
+    if r < 0.3: g = gen.disjoint_union(g, gen.cycle(rng.randint(3, 6)))
+    if r > 0.8: g = gen.add_isolated(g, 2)
+    g = gen.relabel(rng, g[0], g[1])
+    if w64: return weigh64(rng, g)[0]
+    return gen.weigh(rng, g, rng.choice(["unit", "ties", "ties", "wide"]))[0]
+
+
+def shim_cases64(rng, tier):
+    """the six entry points on 64-bit integer weights above 2^53 (L) under random schedules"""
+    ng = 130 if tier == "quick" else 700
+    maxn = 13 if tier == "quick" else 22
+    out = []
+    for i in range(ng):
+        g, _ = X.gen_graph64(rng, maxn)
+        N = len(g[1]) - g[0] + O.components(g[0], g[1])
+        for b in (rand_bits(rng), rand_bits(rng) if i % 5 else "1"):
+            perm = None
+            if N >= 2 and rng.random() < 0.25:
+                perm = list(range(N)); rng.shuffle(perm)
+            out.append((tcase("signed_tbb", None, "L", 0, b, g, perm), g))
+            for alg in ("fvs_tbb", "iso_tbb"): out.append((tcase(alg, None, "L", 0, b, g), g))
+            for alg in APPROX: out.append((tcase(alg, rng.choice([1, 1, 2, 2, 3, 4]), "L", 0, b, g), g))
+    for i in range(500 if tier == "quick" else 3000):          # more schedules for the signed variant (exact comparison with the model)
+        g, _ = X.gen_graph64(rng, maxn)
+        for _ in range(2): out.append((tcase("signed_tbb", None, "L", 0, rand_bits(rng), g), g))
+    return out
+
+
+def size_cases(rng, tier):
+    """shim cases beyond narrow index types: (a) 257..400 vertices through the exact model comparison (signed_tbb) and the judge (fvs_tbb, approximate variants), double / int / long
+    long weights; (b) K45 / K48 + pendants on 310 / 330 vertices, signed_tbb, judged only (the all-vertices reduction over more than 255 vertices); (c) 66009 vertices, signed_tbb and
+    fvs_tbb under the trivial and a forking schedule, judged only.  No isometric variant on (c): it builds a tree per vertex."""
+    out = []
+    for i in range(10 if tier == "quick" else 40):
+        w64 = i % 3 == 2
+        g = mid_sparse(rng, w64)
+        ty = "L" if w64 else "I" if (i % 3 == 1 and int_ok(g)) else "D"
+        for b in ("", rand_bits(rng)): out.append((tcase("signed_tbb", None, ty, 0, b, g), g))
+        out.append((tcase("fvs_tbb", None, ty, 0, rand_bits(rng), g), g))
+        if i % 2: out.append((tcase(APPROX[i % 3], 2, ty, 0, rand_bits(rng), g), g))
+    for i in range(2 if tier == "quick" else 6):
+        g = clique_pendants(rng, rng.choice([45, 48]), rng.choice([310, 330]), rng.choice(["ties", "unit"]), w64=(i % 2 == 1), place=("high", "high", "random", "low")[i % 4])
+        out.append((tcase("signed_tbb", None, "L" if i % 2 else "D", 0, "" if i % 2 else "1101", g), g))
+    for i, variant in enumerate(("tri", "rim", "dense")):
+        g, _ = big_star(rng, variant)
+        ty = "L" if i == 1 else "D"
+        out.append((tcase("signed_tbb", None, ty, 0, "", g), g))
+        out.append((tcase("signed_tbb", None, ty, -3 if ty == "D" else 0, "1", g), g))
+        if variant != "tri" or tier != "quick":
+            out.append((tcase("fvs_tbb", None, ty, 0, "" if variant == "dense" else "110", g), g))
+    return out
+
+
+def real_cases64(rng, tier):
+    """real oneTBB: the six entry points on 64-bit weights; the size cases of size_cases (signed_tbb, fvs_tbb) with 2 and 16 workers"""
+    out = []
+    def rline(alg, k, ty, w, g):
+        a = alg if k is None else "%s %d" % (alg, k)
+        return ("R %s %s 0 %d %s" % (a, ty, w, gen.graph_tokens(g)), g)
+    for i in range(25 if tier == "quick" else 120):
+        g, _ = X.gen_graph64(rng, 22 if tier == "quick" else 36)
+        for alg in EXACT + APPROX:
+            k = None if alg in EXACT else rng.choice([1, 2, 2, 3])
+            for w in (1, 2, 16): out.append(rline(alg, k, "L", w, g))
+    for i in range(3 if tier == "quick" else 10):
+        g = mid_sparse(rng, i % 2 == 0)
+        for alg in ("signed_tbb", "fvs_tbb", "iso_tbb"): out.append(rline(alg, None, "L" if i % 2 == 0 else "D", rng.choice([2, 16]), g))
+    g = clique_pendants(rng, 45, 320, "ties", w64=True)
+    for w in (2, 16): out.append(rline("signed_tbb", None, "L", w, g))
+    for i, variant in enumerate(("rim", "dense") if tier == "quick" else ("tri", "rim", "dense")):
+        g, _ = big_star(rng, variant)
+        out.append(rline("signed_tbb", None, "D" if i else "L", 16, g))
+        out.append(rline("fvs_tbb", None, "D" if i else "L", 2 if i else 16, g))
+    return out
+
+
 # ------------------------------------------------------------------------------------------------------------------
 # judging
 # ------------------------------------------------------------------------------------------------------------------
+def two_core(n, es):
+    """the 2-core of the graph (repeatedly remove vertices of degree <= 1), renumbered: (n', edges', {edge id of g: edge id of the core}).  An edge
+    outside the 2-core lies on no cycle, so the cycle space — hence every minimum cycle basis and the dimension m - n + c — of g is that of its 2-core."""
+    deg = [0] * n; adj = [[] for _ in range(n)]
+    for i, (u, v, _) in enumerate(es):
+        deg[u] += 1; deg[v] += 1; adj[u].append((v, i)); adj[v].append((u, i))
+    gone = [False] * len(es); dead = [False] * n
+    st = [v for v in range(n) if deg[v] <= 1]
+    while st:
+        v = st.pop()
+        if dead[v]: continue
+        dead[v] = True
+        for (u, i) in adj[v]:
+            if not gone[i]:
+                gone[i] = True; deg[u] -= 1; deg[v] -= 1
+                if deg[u] <= 1 and not dead[u]: st.append(u)
+    vid = {}; ces = []; emap = {}
+    for i, (u, v, w) in enumerate(es):
+        if gone[i]: continue
+        for x in (u, v):
+            if x not in vid: vid[x] = len(vid)
+        emap[i] = len(ces); ces.append((vid[u], vid[v], w))
+    return len(vid), ces, emap
+
+
+_CORES = {}
+
+
+def reduce_to_core(n, es, cycles):
+    """(n', es', cycles') on the 2-core, or a string: why the emitted family cannot be a cycle basis of g"""
+    key = (n, len(es), hash(tuple(es)))
+    if key not in _CORES:
+        if len(_CORES) > 64: _CORES.clear()
+        _CORES[key] = two_core(n, es)
+    cn, ces, emap = _CORES[key]
+    out = []
+    for j, cy in enumerate(cycles):
+        for i in cy:
+            if not isinstance(i, int) or i < 0 or i >= len(es): return "cycle #%d contains %s, which is not an edge of the input graph" % (j, i)
+            if i not in emap: return "cycle #%d contains the edge %d = %s, which lies on no cycle of the graph (not in its 2-core)" % (j, i, es[i])
+        out.append([emap[i] for i in cy])
+    return cn, ces, out
+
+
 def parse_answer(impl):
     if impl.startswith(("IMPL-EXCEPTION", "CRASH")) or " RET " not in " " + impl:
         return None
@@ -196,15 +395,21 @@ def judge(d, impl, opts):
     if ans is None:
         return "%s on a valid input did not return an answer: %s" % (d["alg"], impl[:200])
     ret, cycles = ans
+    core = ""
+    if n > CORE_N:                                       # large graphs: judged on the 2-core (same cycle space)
+        red = reduce_to_core(n, es, cycles)
+        if isinstance(red, str): return "%s: %s" % (d["alg"], red)
+        n, es, cycles = red
+        core = " [judged on the 2-core of the graph: %d vertices, %d edges; edge ids in this message are the 2-core's]" % (n, len(es))
     why = O.judge_basis(n, es, cycles)
-    if why: return "%s: %s" % (d["alg"], why)
+    if why: return "%s: %s%s" % (d["alg"], why, core)
     if not isinstance(ret, int): return "%s: returned value %s is not an exact multiple of the weight unit" % (d["alg"], ret)
     key = gen.graph_tokens((n, es))
     if key not in opts: opts[key] = O.mcb(n, es)
     opt = opts[key]
     if d["k"] is None:
         why = O.judge_weight(n, es, cycles, ret, opt)
-        if why: return "%s: %s" % (d["alg"], why)
+        if why: return "%s: %s%s" % (d["alg"], why, core)
         return None
     tot = sum(es[i][2] for c in cycles for i in c)
     if ret != tot: return "%s: returned value %s != total weight %s of the emitted cycles (caller's weights)" % (d["alg"], ret, tot)
@@ -232,7 +437,7 @@ TCORR = ("correspondence c03/trees%s: ParTreesModel.%s vs harness/c03_trees.cpp 
 TCOMP = {"L": ("treeslookup", "pt_lookup_call_Z", "ShortestOddCycleLookup<...,true>::operator()"),
          "B": ("treesbuild", "pt_build_call_Z", "CandidateCycleBuilder::operator() with weight limit"),
          "W": ("treesrun", "mcb_sva_trees_tbb_Z", "mcb_sva_fvs_trees_tbb / mcb_sva_iso_trees_tbb")}
-WMAX = {"I": str(2 ** 31 - 1), "D": str(2 ** 62)}      # the model's numeric_limits::max (D: a sentinel above every sum; printed as MAX by both sides)
+WMAX = {"I": str(2 ** 31 - 1), "L": str(2 ** 63 - 1), "D": str(2 ** 62)}      # the model's numeric_limits::max (D: a sentinel above every sum; printed as MAX by both sides)
 TKEYS = ["TREES", "ARR", "CAND", "CALLS", "Q", "ROOTS", "EORD", "RET", "N", "CYC", "POS"]
 
 
@@ -263,8 +468,9 @@ def tcase_line(kind, bld, ty, scale, g, bits=None, sets=None, shuffle=0):
     return "%s %s" % (head, gen.graph_tokens(g))
 
 
-def tree_graph(rng, maxn):
-    """graphs aimed at the case splits of the lookup proof: many candidates of equal weight (unit / small weights on dense and
+def tree_graph(rng, maxn, w64=False):
+    """w64: the same families with 64-bit weights above 2^53 (few distinct values: ties; ladders: distinct weights that collide as doubles).
+    graphs aimed at the case splits of the lookup proof: many candidates of equal weight (unit / small weights on dense and
     regular graphs), long cycles whose partial path weight passes the running minimum only after several edges, forests (no candidate)"""
     r = rng.random()
     if r < 0.07: g = gen.random_tree(rng, rng.randint(1, maxn))
@@ -276,8 +482,11 @@ def tree_graph(rng, maxn):
     elif r < 0.54: g = gen.petersen()
     elif r < 0.62: g = gen.theta(rng.randint(0, 3), rng.randint(1, 4), rng.randint(2, 5))
     elif r < 0.68: g = gen.bipartite(rng.randint(2, 3), rng.randint(2, 4))
-    else: return X.gen_graph(rng, maxn)[0]
+    else:
+        g = X.gen_graph(rng, maxn)[0]
+        return weigh64(rng, g)[0] if w64 else g
     if g[0] > 0 and rng.random() < 0.8: g = gen.relabel(rng, g[0], g[1])
+    if w64: return weigh64(rng, g, rng.choice(["p54", "p54", "p54", "p53", "ladder", "ladder", "top", "mix"]))[0]
     return gen.weigh(rng, g, rng.choice(["unit", "unit", "ties", "ties", "ties", "wide"]))[0]
 
 
@@ -300,16 +509,25 @@ def signed_sets(rng, g, k):
     return out
 
 
-def trees_cases(rng, tier):
-    ng = 900 if tier == "quick" else 4000
+def trees_cases(rng, tier, w64=False):
+    """w64: the long long instantiation (L) on 64-bit weights above 2^53; the last graphs of that stream have 257..400 vertices"""
+    ng = (900 if tier == "quick" else 4000) if not w64 else (220 if tier == "quick" else 1000)
     maxn = 12 if tier == "quick" else 20
-    out = []
-    for i in range(ng):
-        g = tree_graph(rng, maxn)
+    nmid = 0 if not w64 else (4 if tier == "quick" else 20)
+    out, mids = [], []
+    for i in range(ng + nmid):
+        mid = i >= ng
+        g = tree_graph(rng, maxn, w64) if not mid else mid_sparse(rng, i % 2 == 0)
         ity = gen.int_domain_ok(g)
         def ty_sc():
+            if w64: return ("L", 0) if not mid or i % 2 == 0 else ("D", 0)
             ty = "I" if ity and rng.random() < 0.4 else "D"
             return ty, (0 if ty == "I" else rng.choice([0, 0, -3, 5]))
+        if mid:      # beyond uint8 indices: the FVS builder only (a handful of trees over 257..400 vertices), lookup calls and the whole entry point
+            mids.append((tcase_line("L", "fvs", *ty_sc(), g, bits=rand_bits(rng), sets=signed_sets(rng, g, 3)), g))
+            mids.append((tcase_line("L", "fvs", *ty_sc(), g, bits=rand_bits(rng), sets=signed_sets(rng, g, 2), shuffle=rng.randint(1, 10 ** 9)), g))
+            mids.append((tcase_line("W", "fvs", *ty_sc(), g, bits=rand_bits(rng)), g))
+            continue
         for bld in ("fvs", "iso", "horton"):
             ty, sc = ty_sc()
             b = rand_bits(rng) if i % 5 else rng.choice(["1", "110", "1", "100", ""])
@@ -325,6 +543,9 @@ def trees_cases(rng, tier):
             for _ in range(2 if small else 0):
                 ty, sc = ty_sc()
                 out.append((tcase_line("W", bld, ty, sc, g, bits=rand_bits(rng)), g))
+    # the few larger cases cost about a second each in the list-based model: spread them over the stream (the runners cut it into contiguous chunks)
+    step = max(1, len(out) // (len(mids) + 1))
+    for j, x in enumerate(mids): out.insert(min(len(out), (j + 1) * step + j), x)
     return out
 
 
@@ -590,12 +811,22 @@ class Reporter:
         self.c.violation(why, rep, found)
 
 
-def shim_experiment(c, exe, lines, tier, refok, report, opts, label, count=True):
+def model_feasible(d):
+    """the list-based extracted model is run up to a few hundred vertices when the cycle space is small; beyond that the case is judged only"""
+    n, es = d["n"], d["es"]
+    return d["kind"] != "G" and n <= BIG_N and (n <= CORE_N or len(es) - n + O.components(n, es) <= 60)
+
+
+def size_tag(n):
+    return "" if n <= 255 else " n>255" if n <= 65535 else " n>65535"
+
+
+def shim_experiment(c, exe, lines, tier, refok, report, opts, label, count=True, par=None):
     """run the cases on the shim harness, compare signed_tbb with the model, judge everything.  returns impl outputs"""
-    io = lib.run_lines([exe], lines)
+    io = lib.run_lines([exe], lines, **({"par": par, "timeout": 240} if par else {}))
     ds = [parse_case(l) for l in lines]
-    sidx = [i for i, d in enumerate(ds) if d["alg"] == "signed_tbb" and " RET " in " " + io[i]]
-    mo = dict(zip(sidx, lib.run_model("signedtbb", [model_case(lines[i], io[i]) for i in sidx], group="c03", timeout=1500)))
+    sidx = [i for i, d in enumerate(ds) if d["alg"] == "signed_tbb" and " RET " in " " + io[i] and model_feasible(d)]
+    mo = dict(zip(sidx, lib.run_model("signedtbb", [model_case(lines[i], io[i]) for i in sidx], group="c03", timeout=1500, **({"par": max(1, len(sidx) // 2)} if par else {}))))
     refq = []
     agree = 0
     for i, (l, d) in enumerate(zip(lines, ds)):
@@ -605,8 +836,8 @@ def shim_experiment(c, exe, lines, tier, refok, report, opts, label, count=True)
         sch = list(map(int, f["SCHED"])) if f.get("SCHED") else [0] * 10
         nontrivial = N >= 2 and sch[2] >= 1            # at least one Fork executed
         if count:
-            c.count(l, nontrivial, bucket="%s %s N%s %s" % (d["alg"], d["ty"], "0" if N == 0 else "1" if N == 1 else "2-5" if N <= 5 else "6-15" if N <= 15 else ">15",
-                                                            "forks" if sch[2] else "splits" if sch[1] else "sequential"))
+            c.count(l, nontrivial, bucket="%s %s N%s %s%s" % (d["alg"], d["ty"], "0" if N == 0 else "1" if N == 1 else "2-5" if N <= 5 else "6-15" if N <= 15 else ">15",
+                                                              "forks" if sch[2] else "splits" if sch[1] else "sequential", size_tag(n)))
         why = judge(d, io[i], opts)
         rep = {"component": "c03", "case": l, "impl": io[i], "experiment": label}
         if i in mo: rep.update({"model": mo[i], "model_case": model_case(l, io[i])})
@@ -629,7 +860,7 @@ def shim_experiment(c, exe, lines, tier, refok, report, opts, label, count=True)
         import trees_common
         tl, tio, torig = [], [], []
         for i, (l, d) in enumerate(zip(lines, ds)):
-            if d["alg"] in ("fvs_tbb", "iso_tbb") and " RET " in " " + io[i]:
+            if d["alg"] in ("fvs_tbb", "iso_tbb") and " RET " in " " + io[i] and d["n"] <= CORE_N:
                 tl.append("A %s %s %d %s" % (d["alg"][:3], d["ty"], d["scale"], " ".join(l.split()[d["gpos"]:]))); tio.append(io[i]); torig.append(l)
         if tl:
             st = trees_common.run_trees(c, tier, "weight", lines=tl, io=tio, orig=torig, label="TBB tree variant under schedule, " + label)
@@ -682,7 +913,10 @@ def check(tier, seed):
     c.rule = ("(entry point in {mcb_sva_signed_tbb, mcb_sva_fvs_trees_tbb, mcb_sva_iso_trees_tbb, approx_*_tbb with k in 1..4}) x (double|int weights) x graph "
               "(structured families and random graphs as in C01, tie-heavy weights) x schedule bit stream (all-0 = sequential, all-1 = split everything with "
               "forks right-first, 110/100/101, random densities 0.35..0.95, lengths 2..64, cyclic) x optional explicit push permutation; plus real-TBB runs with "
-              "1/2/16 workers; thorough: every schedule tree of every construct with <= 5 elements on small graphs, ThreadSanitizer. distinct by md5; "
+              "1/2/16 workers; every experiment also with long long weights above 2^53 (2^53+r, 2^54+{0..3}, 2^54+permutation, 2^b+r up to b = 60, heavy/light mixes; (m+4)*sum(w) < 2^63); "
+              "sizes: 257..400 vertices (exact comparison), K45/K48 + pendants on 310/330 vertices (all-vertices reduction over > 255 vertices; judged), stars with 66009 vertices whose hub "
+              "and cycle-carrying leaves have indices >= 65536 and < 256 (signed_tbb / fvs_tbb, trivial and forking schedules, real TBB; judged through the 2-core); "
+              "thorough: every schedule tree of every construct with <= 5 elements on small graphs, ThreadSanitizer. distinct by md5; "
               "non-trivial = cycle space dimension >= 2 and at least one Fork executed (shim) / dimension >= 2 and >= 2 workers (real TBB)")
     c.step_prove()
     ok = c.step_model("c03")
@@ -699,8 +933,16 @@ def check(tier, seed):
         corpus = [l for l in lib.corpus_cases(PID) if l.startswith(("T ", "X "))]
         c.extra["corpus_cases"] = len(corpus)
         cases = shim_cases(c.rng, tier)
-        lines = corpus + [x[0] for x in cases]
+        rng64 = random.Random(seed * 7919 + 303)          # own stream: the double / int streams are unchanged
+        cases64 = shim_cases64(rng64, tier)
+        lines = corpus + [x[0] for x in cases] + [x[0] for x in cases64]
         io = shim_experiment(c, exe, lines, tier, refok, report, opts, "random schedules")
+        c.extra["shim_cases_64bit_weights"] = len(cases64)
+        lap("shim random schedules (incl. 64-bit weights)")
+        szl = [x[0] for x in size_cases(rng64, tier)]
+        szio = shim_experiment(c, exe, szl, tier, False, report, opts, "sizes beyond narrow index types", par=max(1, len(szl) // 2))
+        c.extra["shim_size_cases"] = {"n>255": sum(1 for l in szl if l[0] != "G"), "n>65535 (judged only)": sum(1 for l in szl if l[0] == "G")}
+        lines = lines + szl; io = io + szio
         # same graph, different schedules / entry points: the total weight of every exact answer must coincide
         byg = {}
         for l, o in zip(lines, io):
@@ -712,7 +954,7 @@ def check(tier, seed):
                 a, b = v[0], next(x for x in v if x[0] != v[0][0])
                 report("sched-dep", "exact entry points return different total weights on the same graph under different schedules: %s vs %s" % (a[0], b[0]),
                        {"component": "c03", "case": b[1], "impl": b[2], "other_case": a[1], "other_impl": a[2]}, True)
-        lap("shim random schedules")
+        lap("shim sizes beyond narrow index types + cross-schedule agreement")
         if tier == "thorough":
             graphs = small_graphs(c.rng, 200)
             ex = exhaustive_cases(c, exe, graphs)
@@ -749,7 +991,7 @@ def check(tier, seed):
     if ok and exes.get("c03_trees"):
         tcorpus = [l for l in lib.corpus_cases(PID) if l.startswith(("L ", "B ", "W "))]
         c.extra["trees_exact_corpus_cases"] = len(tcorpus)
-        tlines = tcorpus + [x[0] for x in trees_cases(c.rng, tier)]
+        tlines = tcorpus + [x[0] for x in trees_cases(c.rng, tier)] + [x[0] for x in trees_cases(random.Random(seed * 7919 + 304), tier, w64=True)]
         trees_experiment(c, exes["c03_trees"], tlines, tier, report, opts, "tree lookup, random schedules and signed sets")
         if tier == "thorough":
             # every schedule tree of the reduction over <= 5 candidates / of the parallel_for over <= 5 trees, as cyclic streams
@@ -765,12 +1007,19 @@ def check(tier, seed):
     # ---- real TBB (runtime sampling) ------------------------------------------------------------------------------
     if exes.get("c03_real"):
         rc = real_cases(c.rng, tier)
-        rlines = [l for l in lib.corpus_cases(PID) if l.startswith("R ")] + [x[0] for x in rc]
-        rio = lib.run_lines([exes["c03_real"]], rlines, par=max(2, lib.NPROC // 2))
+        rc64 = real_cases64(random.Random(seed * 7919 + 305), tier)
+        # the cases are dealt round-robin over the processes (lib.run_lines cuts the list into contiguous chunks; the few large cases come last)
+        rl0 = [l for l in lib.corpus_cases(PID) if l.startswith("R ")] + [x[0] for x in rc] + [x[0] for x in rc64]
+        par = max(2, lib.NPROC // 2)
+        order = [i for k in range(par) for i in range(k, len(rl0), par)]
+        ro = lib.run_lines([exes["c03_real"]], [rl0[i] for i in order], par=par, timeout=300)
+        rlines, rio = rl0, [None] * len(rl0)
+        for i, o in zip(order, ro): rio[i] = o
+        c.extra["real_tbb_runs_64bit_or_large"] = len(rc64)
         for l, o in zip(rlines, rio):
             d = parse_case(l)
             N = len(d["es"]) - d["n"] + O.components(d["n"], d["es"])
-            c.count(l, N >= 2 and d["workers"] >= 2, bucket="real-TBB %s workers=%d" % (d["alg"], d["workers"]))
+            c.count(l, N >= 2 and d["workers"] >= 2, bucket="real-TBB %s %s workers=%d%s" % (d["alg"], d["ty"], d["workers"], size_tag(d["n"])))
             why = judge(d, o, opts)
             if why:
                 report("real", why + " [real oneTBB, %d workers]" % d["workers"], {"component": "c03_real", "case": l, "impl": o}, True)
@@ -803,10 +1052,10 @@ def check(tier, seed):
                      "stated in verif_sched.h and SchedModel.v (Run/Seq/Fork trees; read off the installed oneTBB 2021.8 headers, not verified); real-TBB runs sample it",
                      "BFS root order and pointer order of edge descriptors are recovered from the run and fed to the model as oracles; the schedule bit stream and the push permutation are given to both sides",
                      "boost::d_ary_heap_indirect<.,4,.> behaves as HeapModel.v; std::set<Edge> iterates in pointer order",
-                     "double weights are integer multiples of a power of two, sums below 2^53; int weights with 2*sum < 2^31 (exact domain)",
+                     "double weights are integer multiples of a power of two, sums below 2^53; int weights with (m+4)*sum < 2^31, long long weights with (m+4)*sum < 2^63 (exact domain)",
                      "tree-based TBB variants: the arrangement left by std::sort is recovered by running the same builder and the same std::sort on the same graph object "
                      "(deterministic) and given to the model as positions in emission order; the feedback vertex set is the list of tree sources of that builder run; "
-                     "numeric_limits::max is a model parameter (int: INT_MAX, double: a sentinel above every sum; compared as the token MAX)",
+                     "numeric_limits::max is a model parameter (int: INT_MAX, long long: LLONG_MAX, double: a sentinel above every sum; compared as the token MAX)",
                      "C03_signed_tbb needs no premise about the search (it rests on BidirProofs*.v); only the two C03a_*_modulo_search instances keep per-index limit-monotonicity as a premise"],
         trusted_extra=["harness/shim/tbb/*.h (fake TBB executing an explicit schedule), harness/c03.cpp, harness/c03_trees.cpp, harness/c03_real.cpp (TSan fork/join annotations)"],
         explanation="The theorems cover every schedule tree (arbitrary split points, Seq/Fork labelling, execution order), every insertion order of the initial supports and "
@@ -852,9 +1101,9 @@ def replay(path):
         exe, err = lib.build_cpp(name="c03", srcs=["c03.cpp"], libs=SHIM_LIBS, shim=True)
         if exe is None: print(err); print("VIOLATION property=%s replay=%s" % (PID, path)); return 1
         o = lib.run_lines([exe], [line], par=1)[0]
-        print("case:", line); print("impl:", o)
+        print("case:", line[:3000]); print("impl:", o[:3000])
         bad = judge(d, o, {})
-        if d["alg"] == "signed_tbb" and parse_answer(o):
+        if d["alg"] == "signed_tbb" and parse_answer(o) and model_feasible(d):
             m = lib.run_model("signedtbb", [model_case(line, o)], par=1, group="c03")[0]; print("model:", m)
             if not bad and m.strip() != canon_impl(o): bad = "differs from the extracted model under the same schedule"
     else:
@@ -870,7 +1119,7 @@ def replay(path):
                 o = lib.run_lines([exe], [line], par=1)[0]
             bad = bad or judge(d, o, {})
             if bad: break
-        print("case:", line); print("impl:", o)
+        print("case:", line[:3000]); print("impl:", o[:3000])
     print("judge:", bad)
     if bad:
         print("VIOLATION property=%s replay=%s" % (PID, path)); return 1
